@@ -95,6 +95,18 @@ func Adversarial(size int) []AdvCase {
 	}
 	add("fragment-cycle-r2d", sb.String())
 
+	// a fragment that reaches itself through fields, spread below same-named fields whose parents are
+	// different OBJECT types (their sub-selections are compared as mutually exclusive) and, for
+	// comparison, below the same parent: k levels of nesting inside the fragment
+	{
+		deep := "...FX"
+		for i := 0; i < 1+k%4; i++ {
+			deep = "t { " + deep + " }"
+		}
+		add("fragment-cycle-exclusive-parents", "{ ab { ... on A { o { ...FX } } ... on B { o { "+deep+" } } } }\nfragment FX on T { t { t { ...FX } } }\n")
+		add("fragment-cycle-exclusive-parents-2", "{ ab { ... on A { k o { t { ...FY } } } ... on B { k: x o { t { t { ...FY } } } } } }\nfragment FY on T { t { t { ...FY x } } u { ... on T { t { ...FY } } } x }\n")
+	}
+
 	sb.Reset()
 	sb.WriteString("{ u { ...F0 } }\n")
 	for i := 0; i < k; i++ {
